@@ -553,6 +553,10 @@ type DnsRelay struct {
 	outage  bool
 	Queries int
 	up      *net.UDPConn
+	// Loss (optional) decides the fate of every query datagram that reaches the relay: lose the query itself, or
+	// forward it and lose the answer that comes back for it (ordinary datagram loss on the path)
+	Loss     func() (dropQuery, dropAnswer bool)
+	dropAns  map[uint16]bool
 }
 
 func NewDnsRelay(to string, refuse []uint16) (*DnsRelay, error) {
@@ -571,6 +575,8 @@ func NewDnsRelay(to string, refuse []uint16) (*DnsRelay, error) {
 	go r.serve()
 	return r, nil
 }
+
+func (r *DnsRelay) SetLoss(f func() (dropQuery, dropAnswer bool)) { r.mu.Lock(); r.Loss = f; r.mu.Unlock() }
 
 func (r *DnsRelay) SetOutage(on bool) { r.mu.Lock(); r.outage = on; r.mu.Unlock() }
 
@@ -602,7 +608,11 @@ func (r *DnsRelay) serve() {
 			r.mu.Lock()
 			out := r.outage
 			r.mu.Unlock()
-			if from != nil && !out {
+			r.mu.Lock()
+			lose := r.dropAns[id]
+			delete(r.dropAns, id)
+			r.mu.Unlock()
+			if from != nil && !out && !lose {
 				_, _ = r.pc.WriteTo(ans[:k], from)
 			}
 		}
@@ -620,6 +630,23 @@ func (r *DnsRelay) serve() {
 		r.mu.Unlock()
 		if out || n < 2 {
 			continue
+		}
+		r.mu.Lock()
+		loss := r.Loss
+		r.mu.Unlock()
+		if loss != nil {
+			dq, da := loss()
+			if dq {
+				continue
+			}
+			if da {
+				r.mu.Lock()
+				if r.dropAns == nil {
+					r.dropAns = map[uint16]bool{}
+				}
+				r.dropAns[uint16(pkt[0])<<8|uint16(pkt[1])] = true
+				r.mu.Unlock()
+			}
 		}
 		q := new(mdns.Msg)
 		if err := q.Unpack(pkt); err == nil && len(q.Question) == 1 && r.refuse[q.Question[0].Qtype] {
